@@ -654,14 +654,20 @@ func (d *decoder) parseDataFields(dm *defmsg, knownMsg bool, msgv reflect.Value)
 				err, i, dfield, dm)
 		}
 
-		if padding != 0 {
+		if padding > 0 && pfield.t.Kind() != types.NativeFit {
+			// Time and coordinate kinds are read at the full width of
+			// their profile base type: extend the narrower wire value
+			// to that width. Native fields are parsed from the dsize
+			// bytes read, using the definition's base type.
+			psize := pfield.t.BaseType().Size()
 			if dm.arch == le {
-				for j := dsize; j < pfield.t.BaseType().Size(); j++ {
+				for j := dsize; j < psize; j++ {
 					d.tmp[j] = 0x00
 				}
 			} else {
-				for j := 0; j < pfield.t.BaseType().Size(); j++ {
-					d.tmp[j], d.tmp[j+padding] = 0x00, d.tmp[j]
+				copy(d.tmp[padding:psize], d.tmp[:dsize])
+				for j := 0; j < padding; j++ {
+					d.tmp[j] = 0x00
 				}
 			}
 		}
